@@ -113,7 +113,7 @@ bool ENVOBJ::attributeExists(CK_ATTRIBUTE_TYPE type)
 {
 	SELF;
 	int b = bidx(type);
-	if (b >= 0) return vp_in_objb[o * (int)VP_NB + b] != 0;
+	if (b >= 0) return vp_in_objb[o * (int)VP_NB + b] % 3 != 0;
 	int u = uidx(type);
 	if (u >= 0) return vp_in_obju[(o * (int)VP_NU + u) * 2] != 0;
 	if (type == CKA_ALLOWED_MECHANISMS) return OBJX(o, ALLOWED_N) != 0;
@@ -124,7 +124,7 @@ bool ENVOBJ::getBooleanValue(CK_ATTRIBUTE_TYPE type, bool val)
 {
 	SELF;
 	int b = bidx(type);
-	if (b >= 0) return vp_in_objb[o * (int)VP_NB + b] == 0 ? val : (vp_in_objb[o * (int)VP_NB + b] == 2);
+	if (b >= 0) return vp_in_objb[o * (int)VP_NB + b] % 3 == 0 ? val : (vp_in_objb[o * (int)VP_NB + b] % 3 == 2);
 	if (isOther(o, type) && OBJX(o, OTHER_KIND) == 1) return OBJX(o, OTHER_ULONG) != 0;
 	return val;
 }
@@ -152,7 +152,7 @@ OSAttribute ENVOBJ::getAttribute(CK_ATTRIBUTE_TYPE type)
 	// (named locals throughout: the C++ front end loses constructor calls on temporaries in return statements)
 	SELF;
 	int b = bidx(type);
-	if (b >= 0) { bool v = vp_in_objb[o * (int)VP_NB + b] == 2; OSAttribute a(v); return a; }
+	if (b >= 0) { bool v = vp_in_objb[o * (int)VP_NB + b] % 3 == 2; OSAttribute a(v); return a; }
 	int u = uidx(type);
 	if (u >= 0) { unsigned long v = vp_in_obju[(o * (int)VP_NU + u) * 2 + 1]; OSAttribute a(v); return a; }
 	if (type == CKA_ALLOWED_MECHANISMS) { std::set<CK_MECHANISM_TYPE> s = allowedSet(o); OSAttribute a(s); return a; }
